@@ -13,7 +13,7 @@ import z3
 from pyvc.sym import SInt, SId, ctx, lift
 from pyvc.nodes import Contract, AbsEnv, UnionEnv, is_abs, band, bor, bnot, implies
 from pyvc.engine import Harness
-from .common import (new_base, new_family, child_invariants, mk_atleast, mk_variable, Bo, concretise_children, _mv)
+from .common import (new_base, new_family, child_invariants, mk_atleast, mk_variable, Bo, concretise_children, _mv, ints)
 from .specs import ival, truth3, is_variable, is_variable_t
 
 
@@ -231,8 +231,8 @@ def replay_assume(w):
     # the property as stated, through the real evaluate()
     lhs = build_assume(w)[0].assume(dict(d)).evaluate(dict(e))
     rhs = build_assume(w)[0].evaluate(dict(de))
-    detail["assume(d).evaluate(e)"] = [int(x) for x in lhs.as_tuple()]
-    detail["evaluate(d|e)"] = [int(x) for x in rhs.as_tuple()]
+    detail["assume(d).evaluate(e)"] = ints(lhs)
+    detail["evaluate(d|e)"] = ints(rhs)
     if "post.c07" in violated and tuple(lhs.as_tuple()) == tuple(rhs.as_tuple()):
         violated.remove("post.c07")
         violated.append("MISMATCH:post.c07")
